@@ -243,6 +243,12 @@ func ReadFromSSAWithOptions(i io.Reader, opts SSAOptions) (o *Subtitles, err err
 		}
 	}
 
+	// A read error or a too long line stops the scanner as well
+	if err = scanner.Err(); err != nil {
+		err = fmt.Errorf("astisub: scanning failed: %w", err)
+		return
+	}
+
 	// Set metadata
 	o.Metadata = si.metadata()
 
